@@ -94,7 +94,7 @@ Qed.
 Lemma cell_ok_parts : forall flt k v, cell_ok flt k v = true ->
   renderable v = true /\
   match k with
-  | KBool => conv_bool (render_val flt v) = Some (Ok v)
+  | KBool => blank (render_val flt v) = false /\ conv_bool (render_val flt v) = Some (Ok v)
   | KInt => conv_int (render_val flt v) = Some (Ok v)
   | KFlt => conv_float (render_val flt v) = Some (Ok v)
   | KStr => exists x, v = VStr x /\ is_sentinel flt x = false
@@ -103,7 +103,7 @@ Lemma cell_ok_parts : forall flt k v, cell_ok flt k v = true ->
 Proof.
   intros flt k v H. unfold cell_ok in H. apply andb_true_iff in H as [Hr H]. split; [exact Hr|].
   destruct k.
-  - apply conv_is_eq. exact H.
+  - apply andb_true_iff in H as [Hb H]. apply negb_true_iff in Hb. split; [exact Hb|apply conv_is_eq; exact H].
   - apply conv_is_eq. exact H.
   - apply conv_is_eq. exact H.
   - destruct v; try discriminate. eexists. split; [reflexivity|]. now apply negb_true_iff in H.
@@ -120,10 +120,13 @@ Proof.
   destruct k; cbn [witness] in Hwit.
   - (* bool *)
     rewrite (not_all_blank _ _ Hin) by (now apply negb_true_iff in Hwit).
+    assert (Hnb : existsb blank (map (render_val flt) vs) = false).
+    { rewrite existsb_map. destruct (existsb _ vs) eqn:E; [|reflexivity].
+      apply existsb_exists in E as [v [Hv E]]. destruct (cell_ok_parts _ _ _ (Hcells v Hv)) as [_ [Eb _]]. congruence. }
     rewrite map_map.
     rewrite (all_some_map_some _ (fun v => Ok v)).
-    + rewrite res_list_Ok. reflexivity.
-    + intros v Hv. destruct (cell_ok_parts _ _ _ (Hcells v Hv)) as [_ E]. exact E.
+    + rewrite Hnb, res_list_Ok. reflexivity.
+    + intros v Hv. destruct (cell_ok_parts _ _ _ (Hcells v Hv)) as [_ [_ E]]. exact E.
   - (* int *)
     apply is_none_eq in Hwit.
     rewrite (not_all_blank _ _ Hin) by (apply conv_bool_none_nonblank; exact Hwit).
